@@ -48,6 +48,17 @@ from xmlschema import _limits
 _strict = type('str', (str,), {})('strict')
 
 
+class built_cached_property(cached_property):  # type: ignore[type-arg]
+    """
+    A cached property of the global maps that caches only the values computed on built
+    maps: a value computed while another thread is building the maps is not stored.
+    """
+    def __get__(self, instance: Any, owner: Optional[type[Any]] = None) -> Any:
+        if instance is None or instance.built:
+            return super().__get__(instance, owner)
+        return self.func(instance)
+
+
 class XsdGlobals(XsdValidator, Collection[SchemaType]):
     """
     Mediator collection class for composing XML schema instances and provides lookup maps.
@@ -318,7 +329,7 @@ class XsdGlobals(XsdValidator, Collection[SchemaType]):
     def built(self) -> bool:
         return self._built
 
-    @cached_property
+    @built_cached_property
     def validation_attempted(self) -> str:
         if not any(m for m in self.global_maps):
             return 'none'
@@ -327,7 +338,7 @@ class XsdGlobals(XsdValidator, Collection[SchemaType]):
         else:
             return 'full'
 
-    @cached_property
+    @built_cached_property
     def validity(self) -> str:
         if self.validation == 'skip':
             return 'notKnown'
@@ -339,7 +350,7 @@ class XsdGlobals(XsdValidator, Collection[SchemaType]):
         else:
             return 'valid'
 
-    @cached_property
+    @built_cached_property
     def xpath_constructors(self) -> dict[str, type[XPathToken]]:
         if not self._built:
             return {}
